@@ -222,3 +222,21 @@ def fault_cases(ctx):
     for i in range(n):
         out.append(render(gen_history(rng, rng.choice([2, 3, 4, 6, 8, 10]))))
     return out
+
+def thr_cases(ctx):
+    rng = ctx.rng
+    out = []
+    runs = 24 if ctx.tier == "quick" else 500
+    for i in range(runs):
+        n = rng.choice([2, 3, 4, 8, 16])
+        hs = [render(gen_history(rng, rng.choice([10, 30, 60]))) for _ in range(n)]
+        out.append(" || ".join(hs))
+    return out
+
+def shared_cases(ctx):
+    from . import treegen
+    trees = treegen.enumerated_trees(ctx)
+    rng = ctx.rng
+    big = "(arr " + " ".join(treegen.random_tree(rng, 3) for _ in range(40)) + ")"
+    picks = [t for t in trees if "(tag" in t or "(map" in t][:: (20 if ctx.tier == "quick" else 3)] + [big]
+    return ["%d %s" % (rng.choice([2, 4, 8, 16]), t) for t in picks]
